@@ -30,7 +30,7 @@ def generate(rseed, tier='quick'):
   else:
     mdesc = {'kind': 'corpus', 'name': r.choice(C09_CORPUS)}
   spec, _ = modelgen.get_model(mdesc)
-  n = r.randint(1, 8)
+  n = r.randint(1, 8 if tier == 'quick' else 12)
   ddesc = modelgen.draw_dataset_desc(r, 0, n)
   pool = editgen.regex_pool(r, spec, escape=mdesc['kind'] == 'corpus')
   knobs = {
@@ -38,6 +38,7 @@ def generate(rseed, tier='quick'):
       'container': r.choice(['list', 'gen', 'iter', 're']),
       'two_objects': r.random() < 0.7,
       'durable_roundtrip': r.random() < 0.7,
+      'explicit_signature_key': r.random() < 0.4,
   }
   ops = []
   # ---- recipe (applied to both objects): at least one static rule
@@ -234,6 +235,12 @@ def execute(doc):
   data = modelgen.gen_dataset(spec, doc['world']['datasets'][0])
   knobs = doc['knobs']
   qs = build_quantizers(doc, mbytes)
+  sig_key = None
+  if knobs.get('explicit_signature_key'):
+    from sim.props import c14 as _c14
+    sig_key = _c14.signature_key(mbytes)
+    if sig_key is not None:
+      rec.probe('explicit_signature_key')
   durable = None
   pos = 0
   sessions = 0
@@ -270,7 +277,10 @@ def execute(doc):
         rec.event(step, kind, 'no-calibration-needed')
         aborted = True
         break
-      ret = q.calibrate(stream, previous_calibration_result=prev)
+      if sig_key is not None:
+        ret = q.calibrate(stream, signature_key=sig_key, previous_calibration_result=prev)
+      else:
+        ret = q.calibrate(stream, previous_calibration_result=prev)
       outcome = 'returned'
     except harness.SimulatedIOError:
       outcome = 'stream-failed'
